@@ -167,6 +167,15 @@ fn one(e: &Exp, which: &str, tag: &str) -> Case {
     let mut rules = std::collections::BTreeSet::new();
     if which == "simplify" { simplify_rules(e, &mut rules) } else { flatten_rules(e, &mut rules) }
     c.tags.extend(rules);
+    if which == "collapses" {
+        // the region predicate of `simplify_eval_eq` / of the known finding's flag, diffed model vs harness
+        let mut c = Case::default();
+        c.req = format!("collapses {}", req_e);
+        c.imp = format!("(ok {})", crate::props::c01::collapses_nonbinary_with(e, &|_| false));
+        c.tags = vec![tag.to_string(), "collapses".into()];
+        c.show = format!("collapses({})", e);
+        return c;
+    }
     if which == "simplify" {
         // idempotence, checked on the implementation directly
         let twice = out.simplify();
@@ -289,6 +298,7 @@ pub fn generate(seed: u64, n: usize, thorough: bool, _corpus: Option<&str>) -> V
     for e in gen_exp::enumerate(size, &leaves) {
         cases.push(one(&e, "simplify", "exhaustive"));
         cases.push(one(&e, "flatten", "exhaustive"));
+        cases.push(one(&e, "collapses", "exhaustive"));
     }
     // regression inputs found by earlier thorough runs (machinery false alarms and finding variants)
     {
@@ -341,6 +351,7 @@ pub fn generate(seed: u64, n: usize, thorough: bool, _corpus: Option<&str>) -> V
             for e in &targeted {
                 cases.push(one(e, "simplify", "targeted"));
                 cases.push(one(e, "flatten", "targeted"));
+                cases.push(one(e, "collapses", "targeted"));
             }
         }
     }
@@ -357,6 +368,7 @@ pub fn generate(seed: u64, n: usize, thorough: bool, _corpus: Option<&str>) -> V
         let tag = ["random-mixed", "random-arith", "random-special", "random-closed"][i % cfgs.len()];
         cases.push(one(&e, "simplify", tag));
         cases.push(one(&e, "flatten", tag));
+        cases.push(one(&e, "collapses", tag));
     }
     for _ in 0..n / 4 {
         if let Some(c) = respell_case(&mut r) { cases.push(c); }
